@@ -131,7 +131,8 @@ def write_replay(root, prop, unit, result, fresh, tu, wd):
                 rec["counterexample"] = cx
                 if unit.back_end == "GROUP" and "op" in cx:
                     import wkd_native
-                    mod = wkd_native if not str(cx["op"]).startswith("lq:") else __import__("lq_native")
+                    op_ = str(cx["op"])
+                    mod = __import__("pairing_native") if op_.startswith("pairing:") else (__import__("lq_native") if op_.startswith("lq:") else wkd_native)
                     ok, text = mod.replay(cx, wd, tag=unit.name()[:40] + "_native")
                     cx["confirmed_on_real_code"] = bool(ok)
                     rec["native_replay_output"] = text
